@@ -21,7 +21,7 @@ class ThresholdFacts:
         # validation functions = the ones called in the validation prefix of shex_graph
         from ..props.c20 import validation_prefix
         self.validators = set()
-        for st in validation_prefix(shex):
+        for st in validation_prefix(shex, ctx):
             cs = ctx.r.site_of.get(id(st.value))
             for t in (cs.targets if cs else []):
                 self.validators.add(t.qual)
